@@ -28,6 +28,7 @@ import (
 	"os/exec"
 	"path/filepath"
 	"sort"
+	"strconv"
 	"strings"
 )
 
@@ -122,8 +123,17 @@ func main() {
 		if err == nil {
 			gen, err = scaleWidth(src, w)
 		}
+		if err == nil {
+			err = typeCheck("safemath"+w, gen)
+		}
 		if err != nil {
-			gen = []byte("package safemath" + w + "\n\nconst GenError = " + fmt.Sprintf("%q", err.Error()) + "\n")
+			// not derivable (the source uses a construct the width substitution does not understand): a stub
+			// with the same entry points, so that everything still builds and C42 can say what happened.
+			gen = []byte("package safemath" + w + "\n\nimport \"errors\"\n\nconst GenError = " + fmt.Sprintf("%q", err.Error()) + "\n\n" +
+				"var errStub = errors.New(GenError)\n\n" +
+				"func AddInt(a, b int" + w + ") (int" + w + ", error) { return 0, errStub }\n" +
+				"func MultiplyInt(a, b int" + w + ") (int" + w + ", error) { return 0, errStub }\n" +
+				"func MultiplyInt64(a, b int" + w + ") (int" + w + ", error) { return 0, errStub }\n")
 		}
 		dir := filepath.Join(*out, "vx", "safemath"+w)
 		os.MkdirAll(dir, 0o755)
@@ -360,6 +370,7 @@ func scaleWidth(src []byte, w string) ([]byte, error) {
 		return nil, err
 	}
 	f.Name.Name = "safemath" + w
+	scaledConsts := map[string]int{}
 	ast.Inspect(f, func(n ast.Node) bool {
 		switch x := n.(type) {
 		case *ast.Ident:
@@ -373,6 +384,14 @@ func scaleWidth(src []byte, w string) ([]byte, error) {
 					x.Sel.Name = "MaxInt" + w
 				case "MinInt", "MinInt64", "MinInt32":
 					x.Sel.Name = "MinInt" + w
+				case "MaxUint", "MaxUint64":
+					x.Sel.Name = "MaxUint" + w
+				case "MaxUint32", "MaxUint16", "MaxUint8":
+					// a fraction of the 64-bit width: keep the fraction (MaxUint32 = half the bits)
+					bits, _ := strconv.Atoi(w)
+					frac := map[string]int{"MaxUint32": 2, "MaxUint16": 4, "MaxUint8": 8}[x.Sel.Name]
+					id.Name, x.Sel.Name = "scaled", fmt.Sprintf("U%d", bits/frac)
+					scaledConsts[fmt.Sprintf("U%d", bits/frac)] = bits / frac
 				}
 			}
 		}
@@ -383,7 +402,24 @@ func scaleWidth(src []byte, w string) ([]byte, error) {
 		return nil, err
 	}
 	b.WriteString("\nconst GenError = \"\"\n")
-	return b.Bytes(), nil
+	out := b.String()
+	// scaled.U<k> -> (1<<k - 1)
+	for name, bits := range scaledConsts {
+		out = strings.ReplaceAll(out, "scaled."+name, fmt.Sprintf("(1<<%d - 1)", bits))
+	}
+	return []byte(out), nil
+}
+
+// typeCheck compiles one generated file in isolation (standard library imports only).
+func typeCheck(pkg string, src []byte) error {
+	fset := token.NewFileSet()
+	f, err := parser.ParseFile(fset, pkg+".go", src, 0)
+	if err != nil {
+		return err
+	}
+	conf := types.Config{Importer: importer.ForCompiler(fset, "source", nil)}
+	_, err = conf.Check(pkg, fset, []*ast.File{f}, nil)
+	return err
 }
 
 // declaredNames lists the exported top-level identifiers of a hand-written core file.
